@@ -707,7 +707,7 @@ pub fn map_op<const N: usize>(cx: &mut Cx, m: &mut MapN<N>, op: &MapOp) -> Strin
             drop(x);
             "()".into()
         }
-        MapOp::CloneTo(_) | MapOp::CloneFrom(_) | MapOp::Eq(_) | MapOp::FromIter(..) | MapOp::Serde(_) => unreachable!(),
+        MapOp::CloneTo(_) | MapOp::CloneFrom(_) | MapOp::Eq(_) | MapOp::FromIter(..) | MapOp::Serde(..) => unreachable!(),
     }
 }
 
@@ -1187,18 +1187,67 @@ pub mod serde_rt {
     use crate::regs::{MapN, SetN};
     use bincode::serde::{decode_from_slice, encode_into_slice};
 
-    pub fn encode_map<const N: usize>(m: &MapN<N>) -> Option<(u64, usize, Vec<u8>)> {
-        let mut buf = [0u8; 4096];
-        let n = crate::ctl::mm(|| encode_into_slice(m, &mut buf, bincode::config::legacy())).ok()?;
-        let ann = u64::from_le_bytes(buf[..8].try_into().ok()?);
-        Some((ann, (n - 8) / 16, buf[..n].to_vec()))
+    use crate::tokfmt::{Tk, TokDe, TokSer};
+    use serde::{Deserialize, Serialize};
+
+    /// an encoded container: bincode bytes, or the recorded serde calls (`tokfmt`) plus the
+    /// `size_hint` behaviour the deserializer is to show
+    pub enum Enc {
+        Bin(Vec<u8>),
+        Tok(Vec<Tk>, u8),
     }
-    pub fn decode_map<const N: usize>(b: &[u8]) -> Option<MapN<N>> {
-        let r: Result<(MapN<N>, usize), _> = crate::ctl::mm(|| decode_from_slice(b, bincode::config::legacy()));
-        match r {
-            Ok((m, used)) if used == b.len() => Some(m),
-            _ => None,
+
+    /// `fmt` 0: bincode (legacy); `fmt` 1..=4: the token format with hint behaviour `fmt - 1`.
+    /// -> (announced length, number of entries emitted, encoding)
+    fn encode<T: Serialize>(m: &T, fmt: u8, per: usize) -> Option<(String, usize, Enc)> {
+        if fmt == 0 {
+            let mut buf = [0u8; 8192];
+            let n = crate::ctl::mm(|| encode_into_slice(m, &mut buf, bincode::config::legacy())).ok()?;
+            let ann = u64::from_le_bytes(buf[..8].try_into().ok()?);
+            Some((ann.to_string(), (n - 8) / (8 * per), Enc::Bin(buf[..n].to_vec())))
+        } else {
+            let mut toks: Vec<Tk> = Vec::with_capacity(2048);
+            crate::ctl::mm(|| m.serialize(TokSer(&mut toks))).ok()?;
+            let ann = match toks.first() {
+                Some(Tk::MapStart(Some(n))) | Some(Tk::SeqStart(Some(n))) => n.to_string(),
+                Some(Tk::MapStart(None)) | Some(Tk::SeqStart(None)) => "none".into(),
+                _ => return None,
+            };
+            if toks.last() != Some(&Tk::End) {
+                return None;
+            }
+            let items = toks.len() - 2;
+            if items % per != 0 {
+                return None;
+            }
+            Some((ann, items / per, Enc::Tok(toks, fmt - 1)))
         }
+    }
+    fn decode<T: for<'de> Deserialize<'de>>(e: &Enc) -> Option<T> {
+        match e {
+            Enc::Bin(b) => {
+                let r: Result<(T, usize), _> = crate::ctl::mm(|| decode_from_slice(b, bincode::config::legacy()));
+                match r {
+                    Ok((m, used)) if used == b.len() => Some(m),
+                    _ => None,
+                }
+            }
+            Enc::Tok(t, hint) => {
+                let mut de = TokDe { toks: t, pos: 0, hint: *hint };
+                let r = crate::ctl::mm(|| T::deserialize(&mut de));
+                match r {
+                    Ok(m) if de.pos == t.len() => Some(m),
+                    _ => None,
+                }
+            }
+        }
+    }
+
+    pub fn encode_map<const N: usize>(m: &MapN<N>, fmt: u8) -> Option<(String, usize, Enc)> {
+        encode(m, fmt, 2)
+    }
+    pub fn decode_map<const N: usize>(e: &Enc) -> Option<MapN<N>> {
+        decode(e)
     }
     /// `[announced length, elements serialized, len after decoding]` for a container of zero-sized
     /// elements (`k` insertions of the one value there is)
@@ -1260,18 +1309,11 @@ pub mod serde_rt {
             Err(e) => super::esc(&e.to_string()),
         }
     }
-    pub fn encode_set<const N: usize>(m: &SetN<N>) -> Option<(u64, usize, Vec<u8>)> {
-        let mut buf = [0u8; 4096];
-        let n = crate::ctl::mm(|| encode_into_slice(m, &mut buf, bincode::config::legacy())).ok()?;
-        let ann = u64::from_le_bytes(buf[..8].try_into().ok()?);
-        Some((ann, (n - 8) / 8, buf[..n].to_vec()))
+    pub fn encode_set<const N: usize>(m: &SetN<N>, fmt: u8) -> Option<(String, usize, Enc)> {
+        encode(m, fmt, 1)
     }
-    pub fn decode_set<const N: usize>(b: &[u8]) -> Option<SetN<N>> {
-        let r: Result<(SetN<N>, usize), _> = crate::ctl::mm(|| decode_from_slice(b, bincode::config::legacy()));
-        match r {
-            Ok((m, used)) if used == b.len() => Some(m),
-            _ => None,
-        }
+    pub fn decode_set<const N: usize>(e: &Enc) -> Option<SetN<N>> {
+        decode(e)
     }
 }
 
